@@ -207,6 +207,21 @@ def grouping_cases(ctx):
 # MeasureGate inside a circuit
 # ---------------------------------------------------------------------------
 
+def _resolved_indices(steps):
+    """current index tuples of the entries appended so far (shifts applied)"""
+    ent = []
+    for s_ in steps:
+        if s_[0] == 's':
+            ent = [[q + s_[1] for q in e] for e in ent]
+        elif s_[0] == 'u':
+            ent.append(list(s_[2]))
+        elif s_[0] == 'c':
+            ent.append(list(s_[2]) + list(s_[3]))
+        elif s_[0] == 'm':
+            ent.append(list(s_[1]))
+    return ent
+
+
 class CCase:
     __slots__ = ('op', 'n', 'steps', 'psi', 'final', 'records', 'key', 'ntkey', 'err')
 
@@ -236,8 +251,17 @@ def circuit_cases(ctx, rng):
                 subset = tuple(sorted(int(x) for x in rng.permutation(width)[:m]))
                 steps.append(('m', subset, int(rng.integers(0, 2 ** 31))))
                 nm += 1
-            elif r == 5 and width < 5 and rng.integers(0, 2):
-                steps.append(('s', 1)); width += 1
+            elif r == 5 and rng.integers(0, 2):
+                # shift (+/-, also repeatedly, also right after a measure entry): every index so far moves
+                used = [q for s_ in _resolved_indices(steps) for q in s_]
+                lo = -min(used) if used else 0
+                hi = 5 - width
+                d = int(rng.integers(lo, hi + 1)) if hi >= lo else 0
+                if d != 0:
+                    steps.append(('s', d)); width += d
+        if any(s[0] == 'm' for s in steps) and not any(s[0] == 's' for s in steps) and width < 5 and it % 2 == 0:
+            steps.append(('s', 1)); width += 1       # a shift after the MeasureGate was appended
+            steps.append(('u', REF['H'], (int(rng.integers(0, width)),)))
         if nm == 0:
             subset = tuple(sorted(int(x) for x in rng.permutation(width)[:int(rng.integers(1, width + 1))]))
             steps.insert(int(rng.integers(0, len(steps) + 1)) if not any(s[0] == 's' for s in steps) else len(steps), ('m', subset, int(rng.integers(0, 2 ** 31))))
